@@ -257,3 +257,272 @@ func ruleTableSections(c *eng.Ctx) {
 			"no branch for "+strings.Join(lost, ", ")+" children: the text of the table cells below them is never returned")
 	}
 }
+
+// R14.9 [C14]
+func ruleExportFieldCopy(c *eng.Ctx) {
+	const R = "R14.9-EXPORT-FIELD-COPY"
+	c.Rule(R, "prepareChunkForExport: a field of the exported record that has a namesake of the same type in Chunk or ChunkMetadata is a plain copy of that field on every path (never the position in the exported slice, a default, or another field): what is written must be what the chunk says, or the file does not read back as the collection", 8, 0)
+	fn := c.P.Func("rag.(*Exporter).prepareChunkForExport")
+	if fn == nil {
+		c.Undec(R, "rag.(*Exporter).prepareChunkForExport", token.NoPos, "anchor not found")
+		return
+	}
+	// namesake fields of the two source structs
+	src := map[string]types.Type{}
+	for _, tn := range []string{"Chunk", "ChunkMetadata"} {
+		if obj := fn.Pkg.Pkg.Scope().Lookup(tn); obj != nil {
+			if st, ok := obj.Type().Underlying().(*types.Struct); ok {
+				for i := 0; i < st.NumFields(); i++ {
+					src[st.Field(i).Name()] = st.Field(i).Type()
+				}
+			}
+		}
+	}
+	seen := map[string]bool{}
+	for _, f := range eng.Cluster(fn, 1) {
+		eng.Instrs(f, false, func(in ssa.Instruction) {
+			st, ok := in.(*ssa.Store)
+			if !ok {
+				return
+			}
+			fr, ok := eng.AsField(st.Addr)
+			if !ok || !strings.HasSuffix(fr.Struct, "rag.ExportedChunk") {
+				return
+			}
+			want, has := src[fr.Field]
+			if !has || !types.Identical(want, st.Val.Type()) {
+				return
+			}
+			// every leaf of the stored value (through merges and conversions) is a load of the namesake field
+			var bad string
+			visited := map[ssa.Value]bool{}
+			var walk func(v ssa.Value)
+			walk = func(v ssa.Value) {
+				if visited[v] || bad != "" {
+					return
+				}
+				visited[v] = true
+				switch x := v.(type) {
+				case *ssa.Phi:
+					for _, e := range x.Edges {
+						walk(e)
+					}
+					return
+				case *ssa.ChangeType:
+					walk(x.X)
+					return
+				}
+				if lf, ok := eng.LoadOfField(v); ok && lf.Field == fr.Field && (strings.HasSuffix(lf.Struct, "rag.Chunk") || strings.HasSuffix(lf.Struct, "rag.ChunkMetadata")) {
+					return
+				}
+				if fv, ok := v.(*ssa.Field); ok {
+					if lf, ok := eng.AsField(fv); ok && lf.Field == fr.Field {
+						return
+					}
+				}
+				bad = v.Name() + " = " + v.String()
+			}
+			walk(st.Val)
+			key := "rag.ExportedChunk." + fr.Field
+			if seen[key] && bad == "" {
+				return
+			}
+			seen[key] = true
+			c.Check(bad == "", R, key, st.Pos(), "copied from the chunk's "+fr.Field, "exported field "+fr.Field+" is not always the chunk's own "+fr.Field+" (it can be "+bad+"): the written record disagrees with the chunk")
+		})
+	}
+}
+
+// cellRoot follows FieldAddr/IndexAddr chains to the storage cell an address is rooted at.
+func cellRoot(v ssa.Value) ssa.Value {
+	for i := 0; i < 8; i++ {
+		switch x := v.(type) {
+		case *ssa.FieldAddr:
+			v = x.X
+		case *ssa.IndexAddr:
+			v = x.X
+		default:
+			return v
+		}
+	}
+	return v
+}
+
+func cellPath(v ssa.Value) string {
+	p := ""
+	for i := 0; i < 8; i++ {
+		fa, ok := v.(*ssa.FieldAddr)
+		if !ok {
+			break
+		}
+		if fr, ok := eng.AsField(fa); ok {
+			p = "." + fr.Field + p
+		}
+		v = fa.X
+	}
+	return p
+}
+
+var accumulatingMethods = map[string]bool{"WriteString": true, "Write": true, "WriteByte": true, "WriteRune": true}
+var resettingMethods = map[string]bool{"Reset": true, "Truncate": true}
+
+func throughBuiltins(c *ssa.Call) bool {
+	_, ok := c.Call.Value.(*ssa.Builtin)
+	return ok
+}
+
+// R12.10 [C12]
+func ruleFlushResets(c *eng.Ctx) {
+	const R = "R12.10-FLUSH-RESETS"
+	c.Rule(R, "a local flush closure that is called from a loop and hands an accumulator of the enclosing function on (text gathered since the last flush) also clears that accumulator: otherwise every later block starts with everything already emitted and content is repeated across chunks", 1, 1)
+	for _, parent := range c.P.ModuleFuncs() {
+		if parent.Pkg == nil || len(parent.AnonFuncs) == 0 {
+			continue
+		}
+		sp := eng.ShortPath(parent.Pkg.Pkg.Path())
+		if sp != "rag" && !strings.Contains(sp, eng.PositivePkg) {
+			continue
+		}
+		for _, anon := range parent.AnonFuncs {
+			if anon.Signature.Params().Len() != 0 || anon.Signature.Results().Len() != 0 {
+				continue
+			}
+			// the closure value and its call sites in the parent
+			var mc *ssa.MakeClosure
+			eng.Instrs(parent, false, func(in ssa.Instruction) {
+				if m, ok := in.(*ssa.MakeClosure); ok && m.Fn == ssa.Value(anon) {
+					mc = m
+				}
+			})
+			if mc == nil {
+				continue
+			}
+			inLoop := false
+			eng.Instrs(parent, false, func(in ssa.Instruction) {
+				if ci, ok := in.(ssa.CallInstruction); ok && ci.Common().Value == ssa.Value(mc) && eng.InLoop(ci.Block()) {
+					inLoop = true
+				}
+			})
+			if !inLoop {
+				continue
+			}
+			for i, fv := range anon.FreeVars {
+				if i >= len(mc.Bindings) {
+					continue
+				}
+				cell := mc.Bindings[i]
+				// accumulated in a loop of the parent: self-dependent store, or a writing method on the cell
+				accPath, acc := "", false
+				eng.Instrs(parent, false, func(in ssa.Instruction) {
+					if !eng.InLoop(in.Block()) {
+						return
+					}
+					switch x := in.(type) {
+					case *ssa.Store:
+						if cellRoot(x.Addr) != cell {
+							return
+						}
+						for w := range eng.Slice(x.Val, throughBuiltins) {
+							if ld, ok := w.(*ssa.UnOp); ok && ld.Op == token.MUL && cellRoot(ld.X) == cell && cellPath(ld.X) == cellPath(x.Addr) {
+								acc, accPath = true, cellPath(x.Addr)
+							}
+						}
+					case ssa.CallInstruction:
+						cal := x.Common().StaticCallee()
+						if cal != nil && accumulatingMethods[cal.Name()] && len(x.Common().Args) > 0 && cellRoot(x.Common().Args[0]) == cell {
+							acc, accPath = true, cellPath(x.Common().Args[0])
+						}
+					}
+				})
+				if !acc {
+					continue
+				}
+				covers := func(addr ssa.Value) bool { // addr names the accumulated part or something containing it
+					p := cellPath(addr)
+					return cellRoot(addr) == ssa.Value(fv) && strings.HasPrefix(accPath, p)
+				}
+				// handed on by the closure: a value read from it reaches a call argument or a store elsewhere
+				emitted, reset := false, false
+				eng.Instrs(anon, false, func(in ssa.Instruction) {
+					switch x := in.(type) {
+					case *ssa.UnOp:
+						if x.Op == token.MUL && covers(x.X) && flowsElsewhere(x, fv) {
+							emitted = true
+						}
+					case *ssa.Store:
+						if covers(x.Addr) {
+							self := false
+							for w := range eng.Slice(x.Val, throughBuiltins) {
+								if ld, ok := w.(*ssa.UnOp); ok && ld.Op == token.MUL && cellRoot(ld.X) == ssa.Value(fv) {
+									self = true
+								}
+							}
+							if !self {
+								reset = true
+							}
+						}
+					case ssa.CallInstruction:
+						cal := x.Common().StaticCallee()
+						if cal == nil || len(x.Common().Args) == 0 || !covers(x.Common().Args[0]) {
+							return
+						}
+						if resettingMethods[cal.Name()] {
+							reset = true
+						} else if cal.Name() == "String" || cal.Name() == "Bytes" {
+							if v := x.Value(); v != nil && flowsElsewhere(v, fv) {
+								emitted = true
+							}
+						}
+					}
+				})
+				if !emitted {
+					continue
+				}
+				name := fv.Name() + accPath
+				c.Check(reset, R, eng.FuncName(parent)+"#"+name, anon.Pos(), "the flush clears "+name, "the flush closure hands "+name+" on but never clears it (no assignment of a fresh value, no Reset): the next block starts with the text already emitted and content is repeated in later chunks")
+			}
+		}
+	}
+}
+
+// flowsElsewhere: a value read from a captured cell reaches a call argument (other than the builtins that rebuild the
+// cell's own value) or a store that is not into the same cell.
+func flowsElsewhere(v ssa.Value, cell ssa.Value) bool {
+	seen := map[ssa.Value]bool{}
+	work := []ssa.Value{v}
+	for len(work) > 0 {
+		x := work[len(work)-1]
+		work = work[:len(work)-1]
+		if seen[x] || x.Referrers() == nil {
+			continue
+		}
+		seen[x] = true
+		for _, r := range *x.Referrers() {
+			switch u := r.(type) {
+			case *ssa.Store:
+				if u.Val == x && cellRoot(u.Addr) != cell {
+					return true
+				}
+			case *ssa.Call:
+				if _, isBuiltin := u.Call.Value.(*ssa.Builtin); isBuiltin {
+					if bn := u.Call.Value.(*ssa.Builtin).Name(); bn == "len" || bn == "cap" {
+						continue
+					}
+					work = append(work, u)
+					continue
+				}
+				return true
+			case *ssa.If, *ssa.BinOp:
+				if b, ok := r.(*ssa.BinOp); ok && (b.Op == token.ADD) {
+					work = append(work, b)
+				}
+			case ssa.Value:
+				switch u.(type) {
+				case *ssa.Phi, *ssa.Convert, *ssa.ChangeType, *ssa.Slice, *ssa.MakeInterface, *ssa.Field, *ssa.Extract:
+					work = append(work, u)
+				}
+			}
+		}
+	}
+	return false
+}
